@@ -289,6 +289,8 @@ struct Gen {
     tailed: bool,
     /// inside a glue specification (what follows a dimension there may name registers)
     in_glue: bool,
+    /// the dimension being written is the last part of its glue specification
+    last_part: bool,
 }
 
 fn ends_blank(v: &[Tok]) -> bool {
@@ -541,6 +543,12 @@ impl Gen {
                 _ => 3 + self.rng.below(2),
             };
             for _ in 0..extra {
+                // every further l is a keyword of its own (TeX 454): a blank may stand in front of it.  Only in the
+                // last part of a glue specification: where the blank ends the unit (recorded finding) the rest is
+                // typeset, and it must be plain letters
+                if self.last_part && self.rng.chance(1, 5) {
+                    v.push(Tok::Ch(' '));
+                }
                 v.push(Tok::Ch(if self.rng.chance(1, 6) { 'L' } else { 'l' }));
             }
             self.maybe_space(v, 2, 3);
@@ -650,17 +658,23 @@ impl Gen {
             }
         }
         v.extend(w);
-        if self.rng.chance(3, 5) {
+        let plus = self.rng.chance(3, 5);
+        let minus = self.rng.chance(3, 5);
+        if plus {
             self.maybe_space(v, 1, 2);
             self.kw(v, "plus");
             self.maybe_space(v, 1, 2);
+            self.last_part = !minus;
             self.dimen_text(v, true, regs);
+            self.last_part = false;
         }
-        if self.rng.chance(3, 5) {
+        if minus {
             self.maybe_space(v, 1, 2);
             self.kw(v, "minus");
             self.maybe_space(v, 1, 2);
+            self.last_part = true;
             self.dimen_text(v, true, regs);
+            self.last_part = false;
         }
     }
 
@@ -862,7 +876,7 @@ fn vm_events(args: &Args) -> i32 {
     let n: u64 = args.num("n", 1000);
     let pairs: u64 = args.num("pairs", 1);
     let mut out = Out::new(args.str("out"));
-    let mut g = Gen { rng: Rng::new(seed ^ 0xC06), tailed: false, in_glue: false };
+    let mut g = Gen { rng: Rng::new(seed ^ 0xC06), tailed: false, in_glue: false, last_part: false };
 
     // ---- (a) every ordered pair of boundary operands, for each primitive and register type
     if pairs != 0 {
